@@ -195,7 +195,12 @@ func (ms *Modules) resolveIdentities() []error {
 			newValues = addChildren(j, newValues)
 		}
 		sort.SliceStable(newValues, func(j, k int) bool {
-			return newValues[j].Name < newValues[k].Name
+			if newValues[j].Name != newValues[k].Name {
+				return newValues[j].Name < newValues[k].Name
+			}
+			// Identities of equal name in different modules: order them
+			// by module, not by the order the map handed them out.
+			return newValues[j].modulePrefixedName() < newValues[k].modulePrefixedName()
 		})
 		for _, j := range newValues {
 			if j == i.Identity {
